@@ -124,14 +124,14 @@ def parse_vspec(path):
                 else:
                     raise SpecError(f'{path}:{i+1}: bad token {rest[k]}')
             u.parts.append(('item', it)); cur_item = it; i += 1
-        elif d in ('@sig', '@loop', '@loopend', '@before', '@after', '@closure', '@closure?', '@ret', '@tail', '@head', '@drop', '@split_or_arm', '@idiom', '@idiom?', '@dropstmt', '@relift', '@tryforeach', '@attr', '@hoist', '@loophead', '@implspec', '@inarm'):
+        elif d in ('@sig', '@loop', '@loopend', '@before', '@after', '@closure', '@closure?', '@ret', '@tail', '@head', '@drop', '@split_or_arm', '@idiom', '@idiom?', '@dropstmt', '@relift', '@tryforeach', '@attr', '@hoist', '@loophead', '@loopafter', '@implspec', '@inarm'):
             if cur_item is None: raise SpecError(f'{path}:{i+1}: {d} outside @item')
             a = Ann(kind=d[1:].rstrip('?'), line=i + 1)
             if d.endswith('?'): a.opts['optional'] = '1'   # anchor may be absent (code before/after a fix)
             rest = ln[len(d):].strip()
             if d == '@ret':
                 a.arg = rest; i += 1
-            elif d in ('@loop', '@loopend', '@tryforeach', '@loophead'):
+            elif d in ('@loop', '@loopend', '@tryforeach', '@loophead', '@loopafter'):
                 ps = rest.split()
                 a.arg = ps[0]
                 for p in ps[1:]:
@@ -1524,6 +1524,17 @@ class Gen:
                     continue
                 kw, ob = loops[n - 1]
                 pending_inserts.append((ct[ob].end, '\n' + a.text.rstrip() + '\n', f'hint:{a.line}'))
+            elif a.kind == 'loopafter':
+                # text inserted right AFTER loop n (behind its closing brace): proof hints that use the loop's exit state and must
+                # not be anchored at whatever statement happens to follow the loop (that statement may be the subject of a clause).
+                # With a desugar= option put @loopafter after the @loop line so that it lands behind the desugaring's own `}`.
+                loops = find_loops(tx, fp['bopen'] + 1, fp['bclose'])
+                n = int(a.arg)
+                if n < 1 or n > len(loops):
+                    self.degraded.setdefault(region, []).append(f'{a.kind} {n} not found ({len(loops)} loops)')
+                    continue
+                kw, ob = loops[n - 1]
+                pending_inserts.append((ct[rl.match_close(ct, ob)].end, '\n' + a.text.rstrip() + '\n', f'hint:{a.line}'))
             elif a.kind == 'loopend':
                 loops = find_loops(tx, fp['bopen'] + 1, fp['bclose'])
                 n = int(a.arg)
